@@ -425,6 +425,7 @@ def run_program(ctx, case, model=None):
     N, nr = psi.N, psi.nr_phys
     dense = bool(case.get("dense"))
     ref = dense_state(psi, ops) if dense else None
+    n_init = float(np.linalg.norm(ref)) if dense else 0.0
     if dense and case.get("observe_at") == -1:
         observables_check(ctx, psi, ops, case, "initial state", ref)
     tainted = False       # a live central block was removed: the tensors need not fit any more (property is silent)
@@ -536,6 +537,11 @@ def run_program(ctx, case, model=None):
                     if (c[0] in ("canonize", "truncate") or mixed) and abs(nv - 1) > TOL:
                         ctx.fail("oracle", "c08:not-normalised", f"{where}: normalize=True but the state has norm {nv!r}", **ok)
                         return
+            elif not float(np.linalg.norm(v)) > 1e-9 * n_init:
+                # a truncation outside the documented canonical form may project the state to zero; the property
+                # is silent about zero states (they cannot be normalised)
+                ctx.count("program:state-annihilated")
+                return
             ref = v
             if case.get("observe_at") == i and float(np.linalg.norm(v)) > 1e-6:
                 observables_check(ctx, psi, ops, case, f"after {where}", v)
@@ -881,9 +887,9 @@ def run(ctx):
     budget = 40 if quick else 600
     t0 = time.time()
     OBSERVED.clear()
-    n_trace = 150 if quick else 1500
-    n_dense = 120 if quick else 1200
-    n_trunc = 160 if quick else 1500
+    n_trace = 200 if quick else 1500
+    n_dense = 180 if quick else 1200
+    n_trunc = 240 if quick else 1500
     # --- (i) trace programs without dense references (all lengths 1..7, all families)
     cases = [gen_program(rng, quick, dense=False) for _ in range(n_trace)]
     cases += [gen_program(rng, quick, dense=True) for _ in range(n_dense)]
